@@ -101,6 +101,9 @@ def _dump(obj):
 
 SUBCASE_CODE = ("import sys; sys.modules['orjson'] = None; sys.path.insert(0, sys.argv[1]); "
                 "from vf import runner; runner._subcase(sys.argv[2], sys.argv[3])")
+SUBCASE_CODE_PLAIN = "import sys; sys.path.insert(0, sys.argv[1]); from vf import runner; runner._subcase(sys.argv[2], sys.argv[3])"
+INTERPRETERS = {"no_orjson": ([], SUBCASE_CODE),      # orjson unimportable: eliot encodes with the standard library's json (as on PyPy)
+                "optimize": (["-O"], SUBCASE_CODE_PLAIN)}  # python -O: assert statements are compiled away
 
 
 def _subcase(modname, spec_json):
@@ -126,7 +129,8 @@ def _run_in_subprocess(mod, spec, timeout):
     import subprocess
     here = os.path.dirname(os.path.dirname(os.path.abspath(__file__)))
     try:
-        p = subprocess.run([sys.executable, "-X", "faulthandler", "-c", SUBCASE_CODE, here, mod.__name__, json.dumps(spec)],
+        flags, code = INTERPRETERS[spec["interpreter"]]
+        p = subprocess.run([sys.executable, "-X", "faulthandler"] + flags + ["-c", code, here, mod.__name__, json.dumps(spec)],
                            capture_output=True, timeout=timeout, start_new_session=True)
     except subprocess.TimeoutExpired:
         return {"inconclusive": "watchdog: case exceeded %ss" % timeout}
@@ -142,7 +146,7 @@ def _run_in_subprocess(mod, spec, timeout):
 
 def _run_in_child(mod, spec, timeout):
     """Fork, run mod.run_case(spec) in the child, return its result dict."""
-    if isinstance(spec, dict) and spec.get("interpreter") == "no_orjson":
+    if isinstance(spec, dict) and spec.get("interpreter") in INTERPRETERS:
         return _run_in_subprocess(mod, spec, timeout)
     r, w = os.pipe()
     sys.stdout.flush()
